@@ -136,8 +136,15 @@ SCtx(r) == { Bn(">", r, NumA("0")), Bn("=", r, StrA("$s")), Un("not", r),
              Bn("and", Bn(">", Own("n"), NumA("0")), Bn("<", r, Own("k"))) }
 SACtx(a) == { Qn("forall", "j", a, Bn(">", VarR("@j"), NumA("0"))), Bn("in", Own("n"), a), Bn(">", Call("len", a), NumA("0")) }
 SPreds == UNION {SCtx(r) : r \in SRefs} \cup UNION {SACtx(a) : a \in SArrs}
+\* the same path twice in one predicate: once in a loosely typed context, once in a context that may contradict the schema
+SRepeat ==
+  UNION {{Bn("and", Bn("=", r, Own("k")), Bn(">", r, NumA("1"))), Bn("and", Bn(">", r, NumA("1")), Bn("=", r, Own("k"))),
+          Bn("or", Bn("=", r, Own("s")), Un("not", r)), Bn("and", Bn("in", r, SetOf(<<NumA("1"), StrA("$s")>>)), Bn("<", r, NumA("2"))),
+          Bn("and", Bn("!=", r, Fld(VarR("@A"), "s")), Bn("=", Call("abs", r), NumA("1")))}
+         : r \in {Own("s"), Own("n"), Own("b"), Fld(Own("m"), "t"), Fld(VarR("@A"), "s"), Fld(VarR("@A"), "n"),
+                  Fld(Idx(Own("ms"), Own("k")), "t"), Idx(Own("xs"), NumA("0"))}}
 SchemaShapes ==
-  {Prop(Scope("after", Ev("t", "A", NoPred), NoPred), Pat1("no", Ev("u", "", Pr(c)))) : c \in SPreds}
+  {Prop(Scope("after", Ev("t", "A", NoPred), NoPred), Pat1("no", Ev("u", "", Pr(c)))) : c \in SPreds \cup SRepeat}
   \cup {Prop(Scope("globally", NoPred, NoPred), Pat2("causes", Ev("t", "A", Pr(Bn(">", Own("n"), NumA("0")))), Ev("w", "", Pr(c)))) : c \in UNION {SCtx(r) : r \in {Own("n"), Own("q"), Fld(VarR("@A"), "n"), Fld(VarR("@A"), "q")}}}
 
 \* predicates that are WELL-TYPED under the schema M of harness/checks/c17.py (C04):
